@@ -297,7 +297,7 @@ func concMain(out, sum string, seed int64, nclients, rounds int) {
 		l := e.line
 		sid := l["id"].(int)
 		sidOf[l["payload"].(string)] = sid
-		tr.Emit(map[string]any{"ev": "SSend", "id": sid, "src": l["tok"], "a": sidAssoc[sid], "sz": l["sz"], "nw": 1, "fits": true, "t": ms(e.t)})
+		tr.Emit(map[string]any{"ev": "SSend", "id": sid, "src": l["tok"], "a": sidAssoc[sid], "sz": l["sz"], "rd": l["sz"], "nw": 1, "fits": true, "t": ms(e.t)})
 	}
 	saltTok := map[string]int{}
 	wants := map[int]string{tokA: string(socksAddr(taddr)), tokB: string(socksAddr(taddr53))}
